@@ -62,7 +62,8 @@ class IPSECKEY(dns.rdata.Rdata):
         gateway = Gateway.from_text(
             gateway_type, tok, origin, relativize, relativize_to
         )
-        b64 = tok.concatenate_remaining_identifiers().encode()
+        # the key may be absent (algorithm 0, RFC 4025 section 2.4)
+        b64 = tok.concatenate_remaining_identifiers(True).encode()
         key = base64.b64decode(b64)
         return cls(
             rdclass, rdtype, precedence, gateway_type, algorithm, gateway.gateway, key
